@@ -177,9 +177,14 @@ class Streams:
                 return "zero"
             if v == 1 and f32bits(sc) == f32bits(alpha) and at.quantization.zero_point == 0:
                 return "one"
-            if at.dtype == DataType.int32 and f32bits(sc) == f32bits(alpha):
+            if at.dtype == DataType.int32 and f32bits(sc) in (f32bits(alpha), f32bits(abs(np.float32(alpha)))):
+                # the plan's vocabulary says what the constant's VALUE is (the quantised multiplier, sign included). Its tensor scale
+                # only feeds the OFM scale / shift the register generator derives for the int32 MUL (C06 / C09): alpha before repair
+                # C06-20 (a negative OFM scale, finding int16-lrelu-negative-alpha-negative-ofm-scale), |alpha| after it. Both are
+                # read as "mulscale"; which one was seen is counted.
                 want, _ = scaling.elementwise_mul_scale(ifm.quantization.scale_f32, np.float32(alpha), op.ofm.quantization.scale_f32)
                 if v == want:
+                    self.ck.count("rw_lrelu_mulscale_tensor_scale_" + ("negative" if float(sc) < 0 else "positive"))
                     return "mulscale"
             return f"?{v}/{sc}"
 
